@@ -294,3 +294,71 @@ func TestKF_LRemValueWithSeparator(t *testing.T) {
 		return nil
 	})
 }
+
+func TestKF_KeyOnlyModeOpenWithSortedSetPanics(t *testing.T) {
+	db, dir := kfOpen(t, HintKeyValAndRAMIdxMode, 4096)
+	defer os.RemoveAll(dir)
+	if err := db.Update(func(tx *Tx) error { return tx.ZAdd("b", []byte("k"), 1, []byte("v")) }); err != nil {
+		t.Fatal(err)
+	}
+	defer func() {
+		if r := recover(); r != nil {
+			t.Errorf("REPRODUCED: Open in HintKeyAndRAMIdxMode on a directory holding a sorted-set record panics instead of returning ErrEntryIdxModeOpt: %v", r)
+		}
+	}()
+	db2, err := kfReopen(t, db, dir, HintKeyAndRAMIdxMode, 4096)
+	if err == nil {
+		db2.Close()
+	}
+}
+
+func TestKF_DoubleLPopReturnsSameElement(t *testing.T) {
+	db, dir := kfOpen(t, HintKeyValAndRAMIdxMode, 4096)
+	defer os.RemoveAll(dir)
+	if err := db.Update(func(tx *Tx) error { return tx.RPush("b", []byte("l"), []byte("a"), []byte("b")) }); err != nil {
+		t.Fatal(err)
+	}
+	_ = db.Update(func(tx *Tx) error {
+		x, err1 := tx.LPop("b", []byte("l"))
+		y, err2 := tx.LPop("b", []byte("l"))
+		if err1 == nil && err2 == nil && string(x) == string(y) {
+			t.Errorf("REPRODUCED: two LPop in one transaction on [a b] returned %q and %q: the second pop does not see the first", x, y)
+		}
+		return nil
+	})
+}
+
+func TestKF_PutThenGetInOneTx(t *testing.T) {
+	db, dir := kfOpen(t, HintKeyValAndRAMIdxMode, 4096)
+	defer os.RemoveAll(dir)
+	_ = db.Update(func(tx *Tx) error {
+		if err := tx.Put("b", []byte("k"), []byte("v"), Persistent); err != nil {
+			t.Fatal(err)
+		}
+		if _, err := tx.Get("b", []byte("k")); err != nil {
+			t.Errorf("REPRODUCED: Get of a key put earlier in the same transaction fails: %v", err)
+		}
+		return nil
+	})
+}
+
+func TestKF_DoubleZPopMaxReturnsSameMember(t *testing.T) {
+	db, dir := kfOpen(t, HintKeyValAndRAMIdxMode, 4096)
+	defer os.RemoveAll(dir)
+	if err := db.Update(func(tx *Tx) error {
+		if err := tx.ZAdd("b", []byte("x"), 1, nil); err != nil {
+			return err
+		}
+		return tx.ZAdd("b", []byte("y"), 2, nil)
+	}); err != nil {
+		t.Fatal(err)
+	}
+	_ = db.Update(func(tx *Tx) error {
+		a, err1 := tx.ZPopMax("b")
+		b, err2 := tx.ZPopMax("b")
+		if err1 == nil && err2 == nil && a == b {
+			t.Errorf("REPRODUCED: two ZPopMax in one transaction returned the same member %q twice", a.Key())
+		}
+		return nil
+	})
+}
